@@ -93,6 +93,23 @@ CLAIMED = {
         "parse_units' derived-symbol tables (tied by correspondence, exhaustive on the symbol tables, sampled on triples); "
         "binary64 rounding bounded by the property's own 1e-12; the Python harness.",
         "DESIGN.md section 6 / C06"),
+    "C08": (
+        "Coq proof that every partition of the loop into iterate / iterate_n / run slices is observably the plain loop with the same iteration count (any chemical step function, any slice lengths), completion is final, set-up is fresh + bit-exact re-execution correspondence in one process and across processes",
+        "Theorems (Props/C08.v, closed under the global context; for an arbitrary state type X and an arbitrary function chem_step : X -> X "
+        "standing for what one iteration does to amounts, generator state and tables): any schedule of iterate, iterate_n(k) (stops at "
+        "completion) and run (one iteration plus any number j >= 0 of further ones, j chosen by the wall clock) leaves the observable state "
+        "(records, clock, completion, X) of the plain loop with the same total iteration budget; two schedules that both reach completion "
+        "end in the same observable state; iterations after completion change nothing; a set-up installs the initial simulation of its "
+        "script whatever was simulated before on whichever object. Tied to the code on every run: random scripts on the three engines "
+        "(grid/graph, four policies, four init_state_processing modes) executed in one child process as reference, again, on another "
+        "object, after unrelated simulations, under random partitions incl. iterate_n(0) and run(0/1/3 ms), from the script stored in the "
+        "trajectory, from rng_seed=None and then its stored script, with another seed (Euler identical, Gillespie different), and in a "
+        "fresh process; times and data compared bit for bit in Coq.",
+        "Trusted: Coq kernel + VM; the modelling assumption that an iteration is a function of the simulation object alone (no static, "
+        "clock or uninitialised memory) is exactly what the correspondence tests, by sampling (60 scripts x 11 runs quick, 1500 thorough); "
+        "PARTIAL: real wall-clock slicing of run(ms) is sampled (0, 1, 3 ms), the theorem covers all slicings of the model; 'a different "
+        "seed changes stochastic results' is judged only where it must hold with probability 1 (Gillespie with recorded events).",
+        "DESIGN.md section 6 / C08"),
     "C09": (
         "Coq proof by induction over the steps of the sampling/completion state machine (characterisation of the recorded steps per policy, strict/never-decreasing times, fixed-step count, sticky completion) + call-sequence correspondence on all engines",
         "Theorems (Props/C09.v, closed under the global context; any strictly increasing step-time sequence T with T 0 = 0, so fixed-step "
